@@ -61,7 +61,8 @@ def ensure_deps() -> None:
 
 def run_workers(module: str, func: str, cases: list[dict], *, nproc: int | None = None,
                 hashseeds: Iterable[int] | None = None, timeout: float = 1800.0,
-                chunks_per_proc: int = 1) -> tuple[list[dict], list[str]]:
+                chunks_per_proc: int = 1, case_wall: int | None = None
+                ) -> tuple[list[dict], list[str]]:
     """Run `module.func(case)` for every case in worker subprocesses.
 
     Cases are dealt round-robin to chunks; chunk i runs under PYTHONHASHSEED
@@ -78,6 +79,9 @@ def run_workers(module: str, func: str, cases: list[dict], *, nproc: int | None 
     chunk_files = []
     for i in range(nchunks):
         chunk = [dict(c, _idx=j) for j, c in enumerate(cases) if j % nchunks == i]
+        if case_wall is not None:
+            for c in chunk:
+                c.setdefault("_wall_limit", case_wall)
         inp = os.path.join(wd, f"{tag}-{i}.in.json")
         outp = os.path.join(wd, f"{tag}-{i}.out.jsonl")
         with open(inp, "w") as fh:
